@@ -16,12 +16,16 @@ META = {
     'text': 'TLC model-checks the communicator design (lock held across a transaction, stale input flushed before '
             'sending, framed receive) against a device that answers in arbitrary chunking, late, not at all, or with '
             'unsolicited bytes: Paired, Atomic, FramingIndependent, FailsWhenSilent hold, and the variants without the '
-            'lock / without the flush are shown to fail. The real StringIO and BytesIO run over a scripted fake '
-            'transport (real asynconn framing code) under a deterministic scheduler in virtual time with 2-3 '
-            'concurrent callers, fault scripts (late reply, garbage, silence, trickling bytes, disconnect, refused '
-            'reconnects) and a poller; each execution is validated by TLC against the observable-level '
-            'specification (pairing, atomicity and per-element delays of multicomm, failing within time-out + one '
-            'receive period, visible state, rate-limited reconnects, callbacks exactly once).',
+            'lock / without the flush are shown to fail. The real StringIO and BytesIO (incl. variable-length replies '
+            'completed in getFullReply) run over a scripted transport and over the real AsynTcp on a fake socket layer, '
+            'under a deterministic scheduler in virtual time with 2-3 concurrent callers (communicate, writeline, '
+            'multicomm with and without replies), fault scripts (late reply, garbage, silence, trickling bytes, '
+            'disconnect / reset, refused reconnects, wrong identification, user disconnect) and a poller - in the '
+            'io_* scenarios the communicator\'s real poll thread with real HasIO modules polled through it; each '
+            'execution is validated by TLC against the observable-level specification (pairing, atomicity and every '
+            'delay of multicomm judged at the device, failing within time-out + one receive period, a healthy device '
+            'never reported as failing, visible state, rate-limited reconnects across callers and poller, callbacks '
+            'exactly once, self-healing, polling resumes right after a reconnect).',
     'note': 'Trusted: TLC, harness/detsched.py, the fake transport; virtual time only. Unsolicited / late data is '
             'assumed to arrive before the flush of the next command (data arriving between flush and reply cannot be '
             'told apart by any implementation).',
